@@ -94,10 +94,15 @@ def _ob_fm(op):
         k = I.choose(5, 'fault_at')
         ch = Chain(I, CONTRACTS_FM)
         hit_msg = []
+        sends = [0]
 
         def inject(n, kind, detail):
+            if kind == 'send':
+                sends[0] += 1
             if n == k:
                 hit_msg.append(ch.submsgs[-1] if ch.submsgs else None)
+                # which bank transfer (counted among transfers only) fails: reproduced natively by the replayer's fault-injecting bank
+                I.choices['fault_send_index'] = sends[0] if kind == 'send' else 0
                 return True
             return False
         ch.fault_inject = inject if k else None
@@ -123,17 +128,16 @@ def _ob_fm(op):
 
 
 def _replay_fm_fault(op):
-    """native reproduction of `the first internal transfer fails`: the farm manager is left without the tokens it must send"""
-    starve = {'claim': 'uusd', 'withdraw_unlocked': LP1, 'emergency_open': LP1}.get(op)
-    if starve is None:
-        return None
+    """native reproduction of `the k-th internal transfer fails`: the replayer's bank is told to fail exactly that transfer"""
     inner = c05._build(op)
 
     def build(m):
         d = inner(m)
-        if m.get('_choices', {}).get('fault_at', 0) != 1:
-            raise ValueError('only a failure of the first internal call is reproducible natively (by starving the contract)')
-        d['mints'] = [(who, [(dn, a) for dn, a in coins if not (who == 'farm_manager' and dn == starve)]) for who, coins in d['mints']]
+        idx = m.get('_choices', {}).get('fault_send_index', 0)
+        if m.get('_choices', {}).get('fault_at', 0) != 0 and idx == 0:
+            raise ValueError('the injected failure is not a bank transfer: not reproducible by the fault-injecting bank')
+        if idx:
+            d['pre_tx_steps'] = [{'op': 'fail_send_number', 'n': idx}]
         return d
     return fm_replay(build)
 
@@ -178,7 +182,13 @@ def _ob_close_refund_fails(auto):
                                [coin_v('uom', 1000), coin_v('uusd', reward)])
         else:
             st, _ = ch.execute('fowner', FM, manage_farm('Close', farm_identifier='m-x'), [])
+        I.observe('status', 'ok' if st == 'ok' else 'err')
+        observe_farm(I, 'm-x')
+        observe_farm(I, 'm-y')
+        observe_position(I, 'u-a')
+        observe_balances(I, b, [('fowner', 'uusd'), ('owner2', 'uusd'), (FM, 'uusd'), (FM, LP1)])
         I.cover('done')
+        I.cover('done_refund_fails' if fail else 'done_refund_paid')
         I.check('close_not_blocked_by_failing_refund', st == 'ok')
         if st != 'ok':
             return
@@ -195,11 +205,32 @@ def _ob_close_refund_fails(auto):
     return s
 
 
+def _replay_close_refund(auto):
+    """native: the same two farms and position; when the refund is to fail, transfers to the farm owner are blocked in the replayer's bank"""
+    def build(m):
+        ep = m['epoch']
+        fail = m.get('_choices', {}).get('refund_fails', 0) == 1
+        d = {'now_s': m['now_s'], 'counters': {'farm': 3},
+             'farms': [('m-x', 'fowner', LP1, 'uusd', m['funded'], m['claimed'], 1, 1, 3), ('m-y', 'owner2', LP2, 'uusd', m['f2_funded'], 0, 1, ep - 1, ep + 5)],
+             'positions': [('u-a', LP1, 77, DAY, 'alice', None)],
+             'mints': [('farm_manager', [('uusd', m['funded'] - m['claimed'] + m['f2_funded']), (LP1, 77)])],
+             'config': {'create_farm_fee': {'denom': 'uom', 'amount': '1000'}, 'max_concurrent_farms': 2},
+             'pre_tx_steps': [{'op': 'block_recipient', 'addr': 'fowner'}] if fail else []}
+        if auto:
+            d['mints'].append(('dave', [('uusd', m['reward']), ('uom', 1000)]))
+            d['txs'] = [('dave', c11._farm_msg('create', params=c11._params_json('uusd', m['reward'], ep + 1, ep + 5)), [('uom', 1000), ('uusd', m['reward'])])]
+        else:
+            d['txs'] = [('fowner', c11._farm_msg('close', farm_identifier='m-x'), [])]
+        return d
+    return fm_replay(build)
+
+
 for _auto in (False, True):
     obligation('C20', 'F3.close_farm_refund_failure_%s' % ('auto_close_on_create' if _auto else 'manual_close'),
                entries=['execute', 'close_farm', 'create_farm', 'close_farms', 'reply'], kind='S',
                statement='the refund transfer of a closed farm fails (tolerated): the close (or the creation that auto-closes an expired farm) still succeeds, the farm is '
                          'removed, the remainder stays in the contract, no other farm, position or balance differs from the run where the transfer works',
-               bounds='one expired farm with symbolic budget, one live farm on another LP, one position; refund transfer fails or not', covers=['done'])(_ob_close_refund_fails(_auto))
+               bounds='one expired farm with symbolic budget, one live farm on another LP, one position; refund transfer fails or not', covers=['done', 'done_refund_fails', 'done_refund_paid'],
+               replay=_replay_close_refund(_auto))(_ob_close_refund_fails(_auto))
 
 from . import lockdep   # noqa: E402,F401  (a lock refused by the farm manager fails the whole deposit)
